@@ -175,9 +175,13 @@ func newServer(e *env, transports ...graphql.Transport) *handler.Server {
 				return graphql.OneShot(&graphql.Response{Data: []byte(`{"up":"done"}`)})
 			case ast.Subscription:
 				n := 0
+				hold := opCtx.OperationName == "Hold"
 				return func(ctx context.Context) *graphql.Response {
 					n++
 					if n > 1 {
+						if hold { // a subscription that stays active until it is stopped or the connection ends
+							<-ctx.Done()
+						}
 						return nil
 					}
 					return &graphql.Response{Data: []byte(`{"name":"test"}`)}
